@@ -625,6 +625,54 @@ func listScenario(x *explore.X, maxLen int) {
 
 // ---- concurrency through the pool ------------------------------------------------------------------------------------
 
+// ---- the two ways of loading a script agree ---------------------------------------------------------------------------
+
+// PAC scripts are plain (sloppy-mode) JavaScript: assignments to undeclared variables, `this` as the global object,
+// legacy octal literals and `with` are what real-world scripts use. The resolver built directly (forwarder pac eval)
+// and the resolvers handed out by the pool (forwarder run --pac) must give the script the same language.
+var entryScripts = []struct{ name, script, want string }{
+	{"undeclared-assignment", `function FindProxyForURL(url, host) { proxy = "PROXY a.test:1"; return proxy; }`, "PROXY a.test:1"},
+	{"undeclared-loop-variable", `function FindProxyForURL(url, host) { for (i = 0; i < 2; i++) {} return "PROXY b.test:" + i; }`, "PROXY b.test:2"},
+	{"this-is-the-global-object", `var that = this; function FindProxyForURL(url, host) { return typeof that.FindProxyForURL == "function" ? "PROXY c.test:3" : "DIRECT"; }`, "PROXY c.test:3"},
+	{"legacy-octal-literal", `function FindProxyForURL(url, host) { return "PROXY d.test:" + 010; }`, "PROXY d.test:8"},
+	{"with-statement", `function FindProxyForURL(url, host) { var o = {p: "PROXY e.test:5"}; with (o) { return p; } }`, "PROXY e.test:5"},
+	{"top-level-undeclared", `counter = 0; function FindProxyForURL(url, host) { counter++; return "PROXY f.test:6"; }`, "PROXY f.test:6"},
+	{"declared-variables-only", `function FindProxyForURL(url, host) { var p = "PROXY g.test:7"; return p; }`, "PROXY g.test:7"},
+	{"arguments-callee", `function FindProxyForURL(url, host) { return arguments.callee.name == "FindProxyForURL" ? "PROXY h.test:8" : "DIRECT"; }`, "PROXY h.test:8"},
+}
+
+func entryPointsScenario(x *explore.X) {
+	sc := entryScripts[x.ChooseFree("script", len(entryScripts))]
+	viaPool := x.ChooseFree("loaded-through", 2) == 1
+	n := 1 + x.ChooseFree("evaluations-1", 3)
+	cfg := &ProxyResolverConfig{Script: sc.script, testingLookupIP: lookup, testingMyIPAddress: []net.IP{}, testingMyIPAddressEx: []net.IP{}}
+	eval := func(u *url.URL) (string, error) { return "", nil }
+	if viaPool {
+		pool, err := NewProxyResolverPool(cfg, nil)
+		if err != nil {
+			x.Failf("entry-points/pool-rejects-script", "script %s: NewProxyResolverPool: %v", sc.name, err)
+			return
+		}
+		eval = func(u *url.URL) (string, error) { return pool.FindProxyForURL(u, "") }
+	} else {
+		r, err := NewProxyResolver(cfg, nil)
+		if err != nil {
+			x.Failf("entry-points/resolver-rejects-script", "script %s: NewProxyResolver: %v", sc.name, err)
+			return
+		}
+		eval = func(u *url.URL) (string, error) { return r.FindProxyForURL(u, "") }
+	}
+	x.Check()
+	for i := 0; i < n; i++ {
+		got, err := eval(&url.URL{Scheme: "http", Host: "example.test", Path: "/"})
+		if err != nil || got != sc.want {
+			x.Failf("entry-points/result", "script %s loaded through the %s, evaluation %d: %q, %v; the script returns %q", sc.name, map[bool]string{true: "pool", false: "plain resolver"}[viaPool], i+1, got, err, sc.want)
+			return
+		}
+	}
+	x.Outcome(fmt.Sprintf("%s/%v", sc.name, viaPool))
+}
+
 func poolScenario(x *explore.X) {
 	ncall := 2 + x.ChooseFree("callers-2", 2)
 	var mu sync.Mutex
@@ -797,6 +845,7 @@ func TestC14(t *testing.T) {
 	s.Add(explore.Scenario{Name: "lists-thorough", Tiers: []string{"thorough"}, Run: func(x *explore.X) { listScenario(x, 3) }})
 	s.Add(explore.Scenario{Name: "pool-interleavings", Remote: true, MaxDev: map[string]int{"quick": 2, "thorough": 3},
 		Run: func(x *explore.X) { schedScenario(t, x) }})
+	s.Add(explore.Scenario{Name: "entry-points-agree", Run: entryPointsScenario})
 	s.Add(explore.Scenario{Name: "pool", Remote: true, Run: func(x *explore.X) { bubble.Run(t, x, func() { poolScenario(x) }) }})
 	s.Main()
 }
